@@ -20,13 +20,18 @@ EXTENDS Schema
 
 CONSTANT Tok   \* [carrier |-> [lo |-> [lit, text], hi |-> .., esc |-> ..]]
 
+\* "wide" = "max", except that members of the unbounded integer types carry a value just outside the i32 range
 Plans == {"min", "max", "mix"}
-Present(plan, i) == plan = "max" \/ (plan = "mix" /\ i % 2 = 1)
+Present(plan, i) == plan \in {"max", "wide"} \/ (plan = "mix" /\ i % 2 = 1)
 Count(plan, i, w) == CASE w = "Bare" -> 1
                        [] w = "Option" -> IF Present(plan, i) THEN 1 ELSE 0
-                       [] OTHER -> (IF plan = "max" THEN 3 ELSE IF Present(plan, i) THEN 1 ELSE 0)
-LeafTok(plan) == CASE plan = "min" -> "lo" [] plan = "max" -> "hi" [] OTHER -> "esc"
+                       [] OTHER -> (IF plan \in {"max", "wide"} THEN 3 ELSE IF Present(plan, i) THEN 1 ELSE 0)
+LeafTok(plan) == CASE plan = "min" -> "lo" [] plan \in {"max", "wide"} -> "hi" [] OTHER -> "esc"
 LeafText(plan, carrier) == Tok[carrier][LeafTok(plan)].text
+\* the text of a builtin-typed member m
+MemberText(plan, m) == IF plan = "wide" /\ m.xsd \in UnboundedUp THEN "2147483648"
+                       ELSE IF plan = "wide" /\ m.xsd \in UnboundedDown THEN "-2147483649"
+                       ELSE LeafText(plan, m.target.rust)
 
 RECURSIVE Repeat(_, _)
 Repeat(x, n) == IF n = 0 THEN <<>> ELSE <<x>> \o Repeat(x, n - 1)
@@ -37,7 +42,7 @@ RECURSIVE NodeFor(_, _, _, _, _)
 \* the element a member m contributes once
 NodeFor(S, m, plan, fuel, i) ==
   IF m.target.k = "builtin"
-  THEN [ns |-> m.ns, local |-> m.xml, attrs |-> {}, kids |-> <<>>, text |-> LeafText(plan, m.target.rust)]
+  THEN [ns |-> m.ns, local |-> m.xml, attrs |-> {}, kids |-> <<>>, text |-> MemberText(plan, m)]
   ELSE IF m.target.k = "struct" /\ fuel > 0
        THEN LET t == CHOOSE x \in StructComps(S) : x.ns = m.target.ns /\ x.n = m.target.n
                 ct == Content(S, t, plan, fuel - 1)
@@ -58,9 +63,17 @@ Content(S, c, plan, fuel) ==
            RECURSIVE Kids(_)
            Kids(i) == IF i > Len(ms) THEN <<>>
                       ELSE (IF ms[i].attr THEN <<>> ELSE Repeat(NodeFor(S, ms[i], plan, fuel, i), Count(plan, i, ms[i].w))) \o Kids(i + 1)
-       IN [attrs |-> {[name |-> ms[i].xml, text |-> IF ms[i].target.k = "builtin" THEN LeafText(plan, ms[i].target.rust) ELSE "?"] :
+       IN [attrs |-> {[name |-> ms[i].xml, text |-> IF ms[i].target.k = "builtin" THEN MemberText(plan, ms[i]) ELSE "?"] :
                         i \in {j \in 1..Len(ms) : ms[j].attr /\ Count(plan, j, ms[j].w) = 1}},
            kids |-> Kids(1), text |-> "-"]
+
+\* does a value of component c contain (transitively) a member of an unbounded integer type ?
+RECURSIVE HasWide(_, _, _)
+HasWide(S, c, fuel) ==
+  IF c.k = "simple" \/ fuel = 0 THEN FALSE
+  ELSE LET ms == ExpFields(S, FileNamed(S, c.f), c.it, BodyOf(c)) IN
+       \E i \in 1..Len(ms) : \/ ms[i].xsd \in UnboundedUp \cup UnboundedDown
+                               \/ (ms[i].target.k = "struct" /\ \E x \in StructComps(S) : x.ns = ms[i].target.ns /\ x.n = ms[i].target.n /\ HasWide(S, x, fuel - 1))
 
 \* the document obtained by serialising a value of component c built by `plan`
 ExpInfoset(S, c, plan) ==
